@@ -489,6 +489,9 @@ func suiteDocument(r *Rng, n int, thorough bool, o *Out) {
 		}
 		pv := v.String()
 		o.emit(op, obs, pv)
+		if c%2 == 0 {
+			emitJSONText(o, out, obs, tree)
+		}
 		// the unmarshaling half of the round trip, against the model's UnmarshalDocument
 		o.emit(lst("unm", "doc", sxSSchema(ts), sxDocSke(out)), obsU, "na")
 	}
